@@ -95,6 +95,7 @@ func ExplorePool(t *testing.T, scenarios []Scenario, n int, deadline time.Time) 
 	var firstErr error
 	const quota = 150
 	const batch = 8
+	const stuckAfter = 4 * time.Minute
 	// take returns a batch of items of one scenario, or ok=false when everything is done.
 	take := func() (string, []Work, bool) {
 		mu.Lock()
@@ -166,7 +167,19 @@ func ExplorePool(t *testing.T, scenarios []Scenario, n int, deadline time.Time) 
 				err := enc.Encode(&poolReq{Scenario: name, Items: items, Quota: quota})
 				var resp poolResp
 				if err == nil {
-					err = dec.Decode(&resp)
+					// a batch is a few hundred executions of milliseconds each. A worker that does not answer for minutes is
+					// stuck inside ONE execution: the controller waits for the bubble to settle and it never does — a goroutine of
+					// the code under test is blocked on something created outside the execution (a package-level channel or lock),
+					// which the bubble does not count as durably blocked. That cannot be told from a defect of the harness, so it
+					// is an engine error, but the check must end.
+					got := make(chan error, 1)
+					go func() { got <- dec.Decode(&resp) }()
+					select {
+					case err = <-got:
+					case <-time.After(stuckAfter):
+						_ = cmd.Process.Kill()
+						err = fmt.Errorf("no answer for %v: an execution never settles (a goroutine blocked on a channel or lock created outside the execution, e.g. at package level?)", stuckAfter)
+					}
 				}
 				mu.Lock()
 				busy--
